@@ -89,6 +89,60 @@ pub fn run(ctx: &mut Ctx) -> (&'static str, String, bool) {
             }
         }
     }
+    // ---- after a handshake (with any InSimVer in our own ISI) the gate still means "9" -----------------
+    {
+        use crate::transport::{Conn, Handle};
+        use insim::insim::Isi;
+        for isi_ver in [0u8, 7, 8, 9, 10, 255] {
+            for v in 0u16..=255 {
+                let v = v as u8;
+                for compressed in MODES {
+                    for which in IMPLS {
+                        for verify in [true, false] {
+                            p.evaluations += 1;
+                            p.distinct(&("handshake", isi_ver, v, compressed, which.name(), verify));
+                            let stream = [&ver_frame(compressed, 1, v)[..], &[if compressed { 1 } else { 4 }, 3, 5, 3][..]].concat();
+                            let h = Handle::new(stream.clone(), vec![], vec![]);
+                            let mut conn = Conn::new(which, &h, compressed, verify);
+                            let isi = Isi { version: isi_ver, ..Default::default() };
+                            let hs = match &mut conn {
+                                Conn::Blocking(f) => f.handshake(isi).map_err(|e| e.to_string()),
+                                Conn::Tokio(f) => {
+                                    let mut fut = Box::pin(f.handshake(isi, std::time::Duration::from_secs(5)));
+                                    crate::transport::poll_to_end(fut.as_mut(), 10_000).unwrap_or_else(|| Err(insim::Error::Disconnected)).map_err(|e| e.to_string())
+                                },
+                            };
+                            if let Err(e) = hs {
+                                p.violation(format!("C09/{}/handshake-failed", which.name()), format!("handshake with InSimVer {isi_ver} failed on an accepting transport: {e}"), json!({"isi_version": isi_ver}));
+                                continue;
+                            }
+                            let r1 = conn.read(&h);
+                            let r2 = conn.read(&h);
+                            let (mut expect, _) = expected_results(&stream, compressed);
+                            if verify && v != 9 {
+                                expect[0] = ReadResult::IncompatibleVersion(v);
+                            }
+                            if vec![r1.clone(), r2.clone()] != expect {
+                                p.violation(
+                                    format!("C09/{}/gate-depends-on-handshake", which.name()),
+                                    format!(
+                                        "{} {} verify={verify}: after a handshake whose ISI carried InSimVer {isi_ver}, a VER reporting {v} gives {} / {} (expected {} / {})",
+                                        which.name(),
+                                        mode_name(compressed),
+                                        short(&r1),
+                                        short(&r2),
+                                        short(&expect[0]),
+                                        short(&expect[1])
+                                    ),
+                                    json!({"impl": which.name(), "mode": mode_name(compressed), "verify": verify, "isi_version": isi_ver, "version": v}),
+                                );
+                            }
+                        }
+                    }
+                }
+            }
+        }
+    }
     // ---- histories with several version packets: the gate must judge every one of them ----------------
     for v in 0u16..=255 {
         let v = v as u8;
